@@ -3,7 +3,7 @@
  "name": "array_update_space",
  "props": ["C15", "C06"],
  "level": "U",
- "tier": "wip",
+ "tier": "quick",
  "harness": "h_array_update_space",
  "enforce": ["xattr_array_update"],
  "replace": ["find_ea_index", "xattr_find_position", "xattr_update_entry"],
@@ -14,7 +14,7 @@
              "format limits: value_len and the replaced entry's value_len <= 2^24 (kernel EXT4_XATTR_SIZE_MAX), names <= 255; ibody_free and block_free arbitrary in [-2^30, 2^30] (callers compute them from sizes <= 65536 and space_used)",
              "call-site guarantee (ext2fs_xattr_set finds old_idx by strcmp on the full name): the entry at old_idx carries the same name, hence the same short-name length, as the key; stated as a postcondition of the find_ea_index contract on the uninterpreted strlen",
              "callees by contract: find_ea_index (returns 0/1, short name pointer arbitrary), xattr_find_position (contract proved in find_position), xattr_update_entry (the bookkeeping subset of the contract proved in update_entry), ext2fs_xattrs_expand is the REAL function",
-             "libc strlen uninterpreted (<= 255); libc memmove is a stub that CHECKS source and destination ranges lie inside live objects and then havocs the destination object (the map semantics of the moves is the subject of array_update_map)",
+             "xattr_update_entry is replaced by the LIGHT variant of its contract (XAT_LIGHT_UPDATE_ENTRY in xat_contracts.h): the subset of the clauses proved in update_entry that concerns the slot fields and the error code", "libc strlen uninterpreted (<= 255); libc memmove is a stub that CHECKS source and destination ranges lie inside live objects and then havocs the destination object (the map semantics of the moves is the subject of array_update_map)",
              "placement of the entry after the call is read off the change of h->ibody_count (new entry: +1 = inode body; entry formerly in the body: -1 = moved to the block; entry formerly in the block: +1 = moved to the body); array_update_map checks the position against ibody_count on real arrays"],
  "native": false
 }
